@@ -1115,6 +1115,12 @@ Qed.
 
 End VectorOk.
 
+Lemma existsb_false_in {X} (f : X -> bool) l x : existsb f l = false -> In x l -> f x = false.
+Proof.
+  intros H Hin. destruct (f x) eqn:E; [|reflexivity].
+  assert (existsb f l = true) by (apply existsb_exists; eauto). congruence.
+Qed.
+
 Lemma verify_share_pub v a : v_y v = Some (pubkeys cf a) ->
   verify_share cf v = Some (v_x v =? peval a (Z.of_nat p + 1)).
 Proof. intro Ey. unfold verify_share. rewrite Ey, (pubkeys_nth_error a (c_my cf) Hp). reflexivity. Qed.
@@ -1152,6 +1158,9 @@ Proof.
     pose proof (vok_Phi A l Hnone Hk P) as PB. pose proof (vok_ownc A l Hnone Hk) as OB.
     fold a B in PB, OB.
     assert (Ey2 : v_y v2 = Some (pubkeys cf a)) by reflexivity.
+    assert (Evr2 : v_vArecv v2 = true) by reflexivity.
+    assert (Exr2 : v_xrecv v2 = v_xrecv (q_v q)) by reflexivity.
+    assert (Ex2 : v_x v2 = v_x (q_v q)) by reflexivity.
     rewrite (bad_answer_in_spec v2 (complained A) (ansF A) (q_compl q1) a (seq 0 (c_n cf)) Ey2 Scompl).
     2:{ intros c Hin. apply in_seq in Hin. unfold n. lia. }
     match goal with |- context[if ?e then Some (qset_disq _ true, _) else _] => destruct e eqn:EW end.
@@ -1159,40 +1168,47 @@ Proof.
       split; intro Hq'; [discriminate Hq'|]. rewrite PB. unfold n. rewrite EW. reflexivity. }
     unfold n in PB. rewrite EW in PB. cbn [orb] in PB.
     set (gp := match ansF A p with Some z => negb (z =? peval a (Z.of_nat p + 1)) | None => false end) in *.
-    assert (SAq : forall q', q_st q' = q_st q -> q_ct q' = q_ct q -> q_v q' = v2 ->
+    assert (SAq : forall q', q_st q' = q_st q -> q_ct q' = q_ct q ->
+              v_vArecv (q_v q') = true -> v_vA (q_v q') = VAFull a -> v_y (q_v q') = Some (pubkeys cf a) ->
+              v_xrecv (q_v q') = v_xrecv (q_v q) ->
               (forall c, q_compl q' c = if Nat.eqb c p then absEntry (ownc B) (ansF A p) else q_compl q c) ->
-              (isSome (shF A) = true -> v_x (q_v q) = peval a (Z.of_nat p + 1) \/ (ownc B = true /\ ansF A p = None)) ->
+              (isSome (shF A) = true -> v_x (q_v q') = peval a (Z.of_nat p + 1) \/ (ownc B = true /\ ansF A p = None)) ->
               StateAbs B q').
-    { intros q' E1 E2 E3 E4 Hx. apply (SA_vector A l q Hnone Hk S q'); auto; rewrite ?E3; auto. }
+    { intros q' E1 E2 E3 E4 E5 E6 E7 Hx. apply (SA_vector A l q Hnone Hk S q'); auto. }
     assert (Ecp : q_compl q p = absEntry (ownc A) (ansF A p)).
     { rewrite (Scompl p). unfold DkgQualFacts.complained. unfold p. rewrite Nat.eqb_refl. reflexivity. }
     assert (Ecq : forall ob, ob = ownc A -> forall c, q_compl q c = if Nat.eqb c p then absEntry ob (ansF A p) else q_compl q c).
     { intros ob -> c. destruct (Nat.eqb_spec c p) as [->|]; [exact Ecp|reflexivity]. }
-    cbn [v_xrecv v2 set_y set_vA set_vArecv]. rewrite Sxr.
+    rewrite Exr2, Sxr.
     destruct (shF A) as [m|] eqn:Esh; cbn [isSome].
     2:{ (* no share yet *)
         rewrite OB in PB. cbn [andb] in PB.
         split; intro Hq'; [|cbn in Hq'; rewrite Hq in Hq'; discriminate Hq'].
         split; [|exact PB]. apply SAq; auto; [|intro; discriminate].
         apply Ecq. rewrite OB. unfold DkgQualFacts.ownc. rewrite Esh, Hk. reflexivity. }
-    rewrite (verify_share_pub v2 a Ey2). cbn [v_x v2 set_y set_vA set_vArecv].
+    rewrite (verify_share_pub v2 a Ey2), Ex2.
     assert (Hmal : ownc A = true -> ownc B = true ->
                match (if v_x (q_v q) =? peval a (Z.of_nat p + 1) then Some (q1, @nil event) else build_complaint cf d q1) with
                | Some (q', _) => Refines B q'
                | None => False
                end).
     { (* the complaint was built when the malformed share came: nothing happens now *)
-      intros OA OBt. rewrite OBt in PB.
+      intros OA OBt. rewrite OBt in PB. cbn [andb] in PB.
+      assert (Hg : gp = false).
+      { pose proof (existsb_false_in _ _ p EW) as HW. cbn beta in HW.
+        unfold DkgQualFacts.complained in HW at 1. unfold p in HW at 1 2. rewrite Nat.eqb_refl, OA in HW. cbn [andb] in HW.
+        apply HW. apply in_seq. unfold p. lia. }
+      rewrite Hg in PB.
       assert (R1 : Refines B q1).
       { split; intro Hq'; [|cbn in Hq'; rewrite Hq in Hq'; discriminate Hq'].
-        assert (Hg : gp = false) by (destruct gp; [discriminate PB|reflexivity]).
         split; [|exact PB]. apply SAq; auto; [apply Ecq; congruence|].
-        intros _. destruct (ansF A p) as [z'|] eqn:Ez'; [left|right; auto].
+        intros _.
         assert (Ecm : complained A p = true) by (unfold DkgQualFacts.complained; unfold p; rewrite Nat.eqb_refl; exact OA).
-        rewrite (Sx0 Hnone Ecm z' Ez'). unfold gp in Hg. rewrite Ez' in Hg.
-        apply negb_false_iff in Hg. apply Z.eqb_eq in Hg. exact Hg. }
+        pose proof (Sx0 Hnone Ecm) as HX. unfold gp in Hg.
+        destruct (ansF A p) as [z'|]; [left|right; auto].
+        change (v_x (q_v q1)) with (v_x (q_v q)). rewrite (HX z' eq_refl). apply negb_false_iff in Hg. apply Z.eqb_eq in Hg. exact Hg. }
       destruct (v_x (q_v q) =? peval a (Z.of_nat p + 1)); [exact R1|].
-      unfold build_complaint. cbn [q_compl q1 qset_v]. rewrite Ecp, OA.
+      unfold build_complaint, q1. cbn [q_compl qset_v]. fold p. rewrite Ecp, OA.
       destruct (ansF A p); cbn [absEntry c_recv]; exact R1. }
     destruct m as [|sb|vb'|cb|ab|tg];
       try (assert (OA : ownc A = true) by (unfold DkgQualFacts.ownc; rewrite Esh; reflexivity);
@@ -1206,40 +1222,505 @@ Proof.
            destruct (v_x (q_v q) =? peval a (Z.of_nat p + 1)); exact HM).
     destruct (readable z) eqn:Hrz.
     2:{ assert (OA : ownc A = true) by (unfold DkgQualFacts.ownc; rewrite Esh, Hrz; reflexivity).
-        assert (OBt : ownc B = true) by (rewrite OB, Hrz; reflexivity).
+        assert (OBt : ownc B = true) by (rewrite OB; reflexivity).
         pose proof (Hmal OA OBt) as HM.
         destruct (v_x (q_v q) =? peval a (Z.of_nat p + 1)); exact HM. }
     (* a readable share came before the vector *)
     assert (OA : ownc A = false) by (unfold DkgQualFacts.ownc; rewrite Esh, Hrz, Hvo; reflexivity).
-    rewrite (Sx1 Hnone z eq_refl Hrz). rewrite Hrz in OB.
+    rewrite (Sx1 Hnone z eq_refl Hrz).
     destruct (z =? peval a (Z.of_nat p + 1)) eqn:Ez; cbn [negb] in OB.
     + (* it matches *)
       rewrite OB in PB. cbn [andb] in PB.
       split; intro Hq'; [|cbn in Hq'; rewrite Hq in Hq'; discriminate Hq'].
       split; [|exact PB]. apply SAq; auto; [apply Ecq; congruence|].
-      intros _. left. rewrite (Sx1 Hnone z eq_refl Hrz). apply Z.eqb_eq. exact Ez.
+      intros _. left. change (v_x (q_v q1)) with (v_x (q_v q)). rewrite (Sx1 Hnone z eq_refl Hrz). apply Z.eqb_eq. exact Ez.
     + (* it does not: the own complaint is built now *)
       rewrite OB in PB. cbn [andb] in PB.
-      unfold build_complaint. cbn [q_compl q1 qset_v]. rewrite Ecp, OA.
+      unfold build_complaint, q1. cbn [q_compl qset_v]. fold p. rewrite Ecp, OA.
       destruct (ansF A p) as [z'|] eqn:Ez'; cbn [absEntry c_recv c_ans c_val].
       * (* an unsolicited answer is stored: it is checked now *)
-        cbn [q_v v_vArecv v_xrecv v2 set_y set_vA set_vArecv andb]. rewrite Sxr, Esh. cbn [isSome andb].
+        cbn [q_v qset_v qset_compl]. rewrite Evr2, Exr2, Sxr. cbn [isSome andb].
         rewrite (verify_share_pub v2 a Ey2). cbn [andb].
         rewrite (check_complaint_pub v2 a p z' Ey2 Hp).
-        unfold gp in PB. rewrite Ez' in PB.
+        unfold gp in PB. cbn beta iota in PB.
         destruct (z' =? peval a (Z.of_nat p + 1)) eqn:Ez2; cbn [negb] in *.
         -- split; intro Hq'; [|cbn in Hq'; discriminate Hq'].
            split; [|exact PB]. apply SAq; cbn; auto.
            ++ intro c. unfold upd. destruct (Nat.eqb c p); [rewrite OB; reflexivity|reflexivity].
            ++ intros _. left. apply Z.eqb_eq. exact Ez2.
         -- split; intro Hq'; [cbn in Hq'; discriminate Hq'|]. exact PB.
-      * cbn [q_v v_vArecv v_xrecv v2 set_y set_vA set_vArecv andb]. rewrite Sxr, Esh. cbn [isSome andb].
+      * cbn [q_v qset_v qset_compl]. rewrite Evr2, Exr2, Sxr. cbn [isSome andb].
         rewrite (verify_share_pub v2 a Ey2). cbn [andb].
-        unfold gp in PB. rewrite Ez' in PB.
+        unfold gp in PB. cbn beta iota in PB.
         split; intro Hq'; [|cbn in Hq'; rewrite Hq in Hq'; discriminate Hq'].
         split; [|exact PB]. apply SAq; cbn; auto.
-        -- intro c. unfold upd. destruct (Nat.eqb c p); [rewrite OB; reflexivity|reflexivity].
-        -- intros _. right. rewrite OB. auto.
+        intro c. unfold upd. destruct (Nat.eqb c p); [rewrite OB; reflexivity|reflexivity].
+Qed.
+
+(* ---------------- the other broadcasts of the dealer ---------------- *)
+Lemma dealer_fatal A k m : fatal_msg cf k m = true -> fatal (A ++ [(k, IB d m)]) = true.
+Proof. intro H. rewrite fatal_app. unfold fatal_of. rewrite Nat.eqb_refl, H. apply orb_true_r. Qed.
+
+Lemma step_dealer_complaint A q cb :
+  q_disq q = false -> StateAbs A q -> Phi A = false ->
+  match q_receive_complaint cf d d cb q with
+  | Some (q', _) => Refines (A ++ [(nph A, IB d (MComplaint cb))]) q'
+  | None => False
+  end.
+Proof.
+  intros Hq S P. unfold q_receive_complaint.
+  assert (Hirr : fatal_msg cf (nph A) (MComplaint cb) = false -> same_facts A (A ++ [(nph A, IB d (MComplaint cb))])).
+  { intro Hf. apply same_facts_irrelevant; auto.
+    - unfold fatal_of. rewrite Hf. apply andb_false_r.
+    - intro c. unfold comp_of, complaint_of. destruct cb; try reflexivity.
+      destruct (Nat.eqb_spec d c) as [<-|]; [|reflexivity]. rewrite Nat.eqb_refl. reflexivity. }
+  destruct (q_ct q) eqn:Ect.
+  { pose proof (sa_ct _ _ S) as Sct. rewrite Ect in Sct. symmetry in Sct. apply Nat.leb_le in Sct.
+    apply (refines_same A); auto. apply Hirr.
+    assert (E : Nat.ltb (nph A) 2 = false) by (apply Nat.ltb_ge; exact Sct).
+    cbn. rewrite E. destruct cb; reflexivity. }
+  assert (Hk : Nat.ltb (nph A) 2 = true).
+  { pose proof (sa_ct _ _ S) as Sct. rewrite Ect in Sct. symmetry in Sct. apply Nat.leb_gt in Sct. apply Nat.ltb_lt. exact Sct. }
+  rewrite Nat.eqb_refl.
+  destruct cb as [|b].
+  { split; intro Hq'; [discriminate Hq'|]. apply Phi_of_fatal. apply dealer_fatal. cbn. exact Hk. }
+  destruct (Z.of_nat (c_n cf) <=? b) eqn:Eb.
+  { split; intro Hq'; [discriminate Hq'|]. apply Phi_of_fatal. apply dealer_fatal. cbn. rewrite Hk, Eb. reflexivity. }
+  apply (refines_same A); auto. apply Hirr. cbn. rewrite Eb. apply andb_false_r.
+Qed.
+
+Lemma step_dealer_garbage A q m :
+  q_disq q = false -> (match m with MEmpty | MShare _ | MOther _ => True | _ => False end) ->
+  Refines (A ++ [(nph A, IB d m)]) (qset_disq q true).
+Proof.
+  intros Hq Hm. split; intro Hq'; [discriminate Hq'|]. apply Phi_of_fatal. apply dealer_fatal.
+  destruct m; try contradiction; reflexivity.
+Qed.
+
+(* ---------------- every broadcast ---------------- *)
+Lemma step_IB A q o m :
+  q_disq q = false -> StateAbs A q -> Phi A = false ->
+  Refines (A ++ [(nph A, IB o m)]) (fst (istep q (IB o m))).
+Proof.
+  intros Hq S P. destruct (Nat.eqb_spec o d) as [->|Ho]; [|apply step_IB_other; assumption].
+  unfold istep. cbn [call_of qual_step qs_run qs_q]. unfold q_broadcast. cbn [negb].
+  rewrite in_range_of_nat, Nat2Z.id. rewrite (proj2 (Nat.ltb_lt d n) Hd). cbn [negb].
+  rewrite (proj2 (Nat.eqb_neq (c_my cf) d) Hpd), Hq, Nat.eqb_refl.
+  destruct m as [|sb|vb|cb|ab|tg]; cbn [qpack qlift fst qs_q].
+  - apply step_dealer_garbage; auto.
+  - apply step_dealer_garbage; auto.
+  - pose proof (step_vector A q vb Hq S P) as H.
+    destruct (q_receive_vector cf d d vb q) as [[q' ev]|]; [exact H|contradiction].
+  - pose proof (step_dealer_complaint A q cb Hq S P) as H.
+    destruct (q_receive_complaint cf d d cb q) as [[q' ev]|]; [exact H|contradiction].
+  - pose proof (step_answer A q ab Hq S P) as H.
+    destruct (q_receive_answer cf d d ab q) as [[q' ev]|]; [exact H|contradiction].
+  - apply step_dealer_garbage; auto.
+Qed.
+
+(* ---------------- the dealer's private message ---------------- *)
+Lemma share_other_same A k o m : Nat.eqb o d && Nat.eqb k 0 = false -> same_facts A (A ++ [(k, IP o m)]).
+Proof. intro H. apply same_facts_irrelevant; auto. Qed.
+
+Lemma share_dup_same A k o m v : shF A = Some v -> same_facts A (A ++ [(k, IP o m)]).
+Proof.
+  intro E. unfold same_facts.
+  split; [rewrite vecF_app; destruct (vecF A); reflexivity|]. split; [rewrite shF_app, E; reflexivity|].
+  split; [intro c; rewrite ansF_app; cbn; destruct (ansF A c); reflexivity|].
+  split; [intro c; rewrite ansEarly_app; cbn; rewrite orb_false_r; reflexivity|].
+  split; [rewrite fatal_app; cbn; rewrite orb_false_r; reflexivity|].
+  split; [intro c; rewrite compF_app; cbn; rewrite orb_false_r; reflexivity|].
+  split; [rewrite forced_app, orb_false_r; reflexivity|rewrite nph_app; reflexivity].
+Qed.
+
+Section Share.
+Variables (A : alist) (m : msg) (q : qinst).
+Hypothesis Hnone : shF A = None.
+Hypothesis Hk : nph A = 0%nat.
+Hypothesis S : StateAbs A q.
+Hypothesis P : Phi A = false.
+Let B := A ++ [(nph A, IP d m)].
+
+Lemma sh_shF : shF B = Some m.
+Proof. unfold B. rewrite shF_app, Hnone, Hk, !Nat.eqb_refl. reflexivity. Qed.
+Lemma sh_vecF : vecF B = vecF A.
+Proof. unfold B. rewrite vecF_app. destruct (vecF A); reflexivity. Qed.
+Lemma sh_ansF c : ansF B c = ansF A c.
+Proof. unfold B. rewrite ansF_app. cbn. destruct (ansF A c); reflexivity. Qed.
+Lemma sh_ansEarly c : ansEarly B c = ansEarly A c.
+Proof. unfold B. rewrite ansEarly_app. cbn. rewrite orb_false_r. reflexivity. Qed.
+Lemma sh_fatal : fatal B = fatal A.
+Proof. unfold B. rewrite fatal_app. cbn. rewrite orb_false_r. reflexivity. Qed.
+Lemma sh_forced : forced B = forced A.
+Proof. unfold B. rewrite forced_app, orb_false_r. reflexivity. Qed.
+Lemma sh_nph : nph B = nph A.
+Proof. unfold B. rewrite nph_app. reflexivity. Qed.
+Lemma sh_compF c : compF B c = compF A c.
+Proof. unfold B. rewrite compF_app. cbn. rewrite orb_false_r. reflexivity. Qed.
+Lemma sh_vecOk : vecOk B = vecOk A.
+Proof. apply same_vecOk. apply sh_vecF. Qed.
+
+Lemma sh_ownc_A : ownc A = false.
+Proof. unfold DkgQualFacts.ownc. rewrite Hnone, Hk. reflexivity. Qed.
+
+Lemma sh_ownc :
+  ownc B = match m with
+           | MShare (SVal z) =>
+               if readable z then match vecOk A with Some a => negb (z =? peval a (Z.of_nat p + 1)) | None => false end
+               else true
+           | _ => true
+           end.
+Proof. unfold DkgQualFacts.ownc. rewrite sh_shF, sh_vecOk. reflexivity. Qed.
+
+Lemma sh_complained c : complained B c = complained A c || (Nat.eqb p c && ownc B).
+Proof.
+  unfold DkgQualFacts.complained. destruct (Nat.eqb_spec p c) as [<-|Hc].
+  - unfold p. rewrite Nat.eqb_refl. fold p. rewrite sh_ownc_A. reflexivity.
+  - rewrite (proj2 (Nat.eqb_neq c (c_my cf))) by (intro; apply Hc; symmetry; assumption).
+    cbn [andb]. rewrite orb_false_r. apply sh_compF.
+Qed.
+
+Lemma sh_Phi :
+  Phi B = match vecOk A with
+          | Some a => ownc B && match ansF A p with Some z => negb (z =? peval a (Z.of_nat p + 1)) | None => false end
+          | None => false
+          end.
+Proof.
+  destruct (Phi_false_inv A P) as (P1 & P2 & P3 & P4 & P5 & P6 & P7).
+  unfold DkgQualFacts.Phi. rewrite sh_forced, sh_fatal, P1, P2.
+  rewrite (badFirst_same A B sh_ansF), P3.
+  assert (E4 : badVec d B = false) by (unfold badVec; rewrite sh_vecF; exact P4).
+  assert (E5 : noVec d B = false) by (unfold noVec; rewrite sh_nph, Hk; reflexivity).
+  assert (E6 : tooMany cf d B = false) by (unfold tooMany; rewrite sh_nph, Hk; reflexivity).
+  rewrite E4, E5, E6. cbn [orb].
+  unfold wrongAns. rewrite sh_vecOk. unfold wrongAns in P7. destruct (vecOk A) as [a|]; [|reflexivity].
+  set (g := fun c => match ansF A c with Some z => readable z && negb (z =? peval a (Z.of_nat c + 1)) | None => false end).
+  rewrite (existsb_ext' _ (fun c => (complained A c || (Nat.eqb p c && ownc B)) && g c)).
+  2:{ intro c. rewrite sh_complained, sh_ansF. reflexivity. }
+  assert (P7' : existsb (fun c => complained A c && g c) (seq 0 (c_n cf)) = false) by exact P7.
+  rewrite existsb_or_point', existsb_eqb_seq by exact Hp. rewrite P7'. cbn [orb andb].
+  unfold g. destruct (ansF A p) as [z|] eqn:Ez; [|reflexivity]. rewrite (badFirst_readable A p z P3 Ez). reflexivity.
+Qed.
+
+(* the state after the private message was taken in *)
+Lemma SA_share q' :
+  q_st q' = q_st q -> q_ct q' = q_ct q ->
+  v_vArecv (q_v q') = v_vArecv (q_v q) -> v_vA (q_v q') = v_vA (q_v q) -> v_y (q_v q') = v_y (q_v q) ->
+  v_xrecv (q_v q') = true ->
+  (forall c, q_compl q' c = if Nat.eqb c p then absEntry (ownc B) (ansF A p) else q_compl q c) ->
+  (forall a, vecOk A = Some a -> v_x (q_v q') = peval a (Z.of_nat p + 1) \/ (ownc B = true /\ ansF A p = None)) ->
+  (vecF A = None -> ownc B = true -> forall z, ansF A p = Some z -> v_x (q_v q') = z) ->
+  (vecF A = None -> forall z, m = MShare (SVal z) -> readable z = true -> v_x (q_v q') = z) ->
+  StateAbs B q'.
+Proof.
+  intros E1 E2 Er EvA Ey Exr Ec Hx Hx0 Hx1.
+  pose proof S as [Sst Sct Svr Svok Svnone Sxr Scompl Searly Sx Sx0 Sx1].
+  refine (mkSA _ _ _ _ _ _ _ _ _ _ _ _ _); rewrite ?sh_nph, ?sh_vecF, ?sh_vecOk, ?sh_shF, ?E1, ?E2, ?Er, ?EvA, ?Ey, ?Exr; auto.
+  - intro c. rewrite Ec, sh_ansF. destruct (Nat.eqb_spec c p) as [->|Hc].
+    + unfold DkgQualFacts.complained. unfold p. rewrite Nat.eqb_refl. reflexivity.
+    + rewrite sh_complained. rewrite (proj2 (Nat.eqb_neq p c)) by (intro; apply Hc; symmetry; assumption).
+      cbn [andb]. rewrite orb_false_r. apply Scompl.
+  - intros Hn c. rewrite sh_ansEarly, sh_ansF. apply Searly. exact Hn.
+  - intros a Ea _. rewrite sh_ansF. destruct (Hx a Ea) as [L|[R1 R2]]; [left; exact L|right].
+    split; [|exact R2]. unfold DkgQualFacts.complained. unfold p. rewrite Nat.eqb_refl. exact R1.
+  - intros Hv Hc z Ez. rewrite sh_ansF in Ez. unfold DkgQualFacts.complained in Hc. unfold p in Hc. rewrite Nat.eqb_refl in Hc.
+    apply Hx0; auto.
+  - intros Hv z Es Hr. inversion Es; subst m. apply Hx1; auto.
+Qed.
+
+End Share.
+
+(* the own complaint is built for the first time (a malformed or mismatching share, or the
+   shares timeout): B extends A by an input that made [ownc] true and left the broadcast
+   facts alone *)
+Section OwnComplaint.
+Variables (A B : alist) (q q1 : qinst).
+Hypothesis S : StateAbs A q.
+Hypothesis P : Phi A = false.
+Hypothesis Hq : q_disq q = false.
+Hypothesis Fv : vecF B = vecF A.
+Hypothesis Fa : forall c, ansF B c = ansF A c.
+Hypothesis Fe : forall c, ansEarly B c = ansEarly A c.
+Hypothesis Ff : fatal B = fatal A.
+Hypothesis Ffo : forced B = forced A.
+Hypothesis Fc : forall c, compF B c = compF A c.
+Hypothesis OA : ownc A = false.
+Hypothesis OB : ownc B = true.
+Hypothesis HnB : (nph B <= 1)%nat.
+Hypothesis HnA : (nph A < 2)%nat.
+Hypothesis HnoVec : noVec d B = false.
+Hypothesis E1 : q_st q1 = Nat.leb 1 (nph B).
+Hypothesis E2 : q_ct q1 = false.
+Hypothesis Ed : q_disq q1 = false.
+Hypothesis Ec : q_compl q1 = q_compl q.
+Hypothesis Er : v_vArecv (q_v q1) = v_vArecv (q_v q).
+Hypothesis EvA : v_vA (q_v q1) = v_vA (q_v q).
+Hypothesis Ey : v_y (q_v q1) = v_y (q_v q).
+Hypothesis Exr : v_xrecv (q_v q1) = isSome (shF B).
+Hypothesis Hnr : vecF A = None -> forall z, shF B = Some (MShare (SVal z)) -> readable z = true -> False.
+
+Lemma oc_vecOk : vecOk B = vecOk A.
+Proof. apply same_vecOk. exact Fv. Qed.
+
+Lemma oc_complained c : complained B c = complained A c || Nat.eqb p c.
+Proof.
+  unfold DkgQualFacts.complained. destruct (Nat.eqb_spec p c) as [<-|Hc].
+  - unfold p. rewrite Nat.eqb_refl. fold p. rewrite OA, OB. reflexivity.
+  - rewrite (proj2 (Nat.eqb_neq c (c_my cf))) by (intro; apply Hc; symmetry; assumption).
+    rewrite orb_false_r. apply Fc.
+Qed.
+
+Lemma oc_Phi :
+  Phi B = match vecOk A with
+          | Some a => match ansF A p with Some z => negb (z =? peval a (Z.of_nat p + 1)) | None => false end
+          | None => false
+          end.
+Proof.
+  destruct (Phi_false_inv A P) as (P1 & P2 & P3 & P4 & P5 & P6 & P7).
+  unfold DkgQualFacts.Phi. rewrite Ffo, Ff, P1, P2, (badFirst_same A B Fa), P3, HnoVec.
+  assert (E4 : badVec d B = false) by (unfold badVec; rewrite Fv; exact P4).
+  assert (E6 : tooMany cf d B = false).
+  { unfold tooMany. assert (E : Nat.leb 2 (nph B) = false) by (apply Nat.leb_gt; lia). rewrite E. reflexivity. }
+  rewrite E4, E6. cbn [orb].
+  unfold wrongAns. rewrite oc_vecOk. unfold wrongAns in P7. destruct (vecOk A) as [a|]; [|reflexivity].
+  set (g := fun c => match ansF A c with Some z => readable z && negb (z =? peval a (Z.of_nat c + 1)) | None => false end).
+  rewrite (existsb_ext' _ (fun c => (complained A c || Nat.eqb p c) && g c)).
+  2:{ intro c. rewrite oc_complained, Fa. reflexivity. }
+  assert (P7' : existsb (fun c => complained A c && g c) (seq 0 (c_n cf)) = false) by exact P7.
+  rewrite existsb_or_point, existsb_eqb_seq by exact Hp. rewrite P7'. cbn [orb andb].
+  unfold g. destruct (ansF A p) as [z|] eqn:Ez; [|reflexivity]. rewrite (badFirst_readable A p z P3 Ez). reflexivity.
+Qed.
+
+Lemma oc_SA q' :
+  q_st q' = q_st q1 -> q_ct q' = q_ct q1 ->
+  v_vArecv (q_v q') = v_vArecv (q_v q1) -> v_vA (q_v q') = v_vA (q_v q1) -> v_y (q_v q') = v_y (q_v q1) ->
+  v_xrecv (q_v q') = v_xrecv (q_v q1) ->
+  (forall c, q_compl q' c = upd (q_compl q) p (match ansF A p with Some z => mkC true true z | None => mkC true false 0 end) c) ->
+  (forall a, vecOk A = Some a -> v_x (q_v q') = peval a (Z.of_nat p + 1) \/ ansF A p = None) ->
+  (vecF A = None -> forall z, ansF A p = Some z -> v_x (q_v q') = z) ->
+  StateAbs B q'.
+Proof.
+  intros F1 F2 F3 F4 F5 F6 F7 Hx Hx0.
+  pose proof S as [Sst Sct Svr Svok Svnone Sxr Scompl Searly Sx Sx0 Sx1].
+  refine (mkSA _ _ _ _ _ _ _ _ _ _ _ _ _); rewrite ?Fv, ?oc_vecOk, ?F1, ?F2, ?F3, ?F4, ?F5, ?F6, ?Er, ?EvA, ?Ey; auto.
+  - rewrite E2. symmetry. apply Nat.leb_gt. lia.
+  - intro c. rewrite F7, oc_complained, Fa. unfold upd. destruct (Nat.eqb_spec c p) as [->|Hc].
+    + rewrite Nat.eqb_refl, orb_true_r. destruct (ansF A p); reflexivity.
+    + rewrite (proj2 (Nat.eqb_neq p c)) by (intro; apply Hc; symmetry; assumption). rewrite orb_false_r. apply Scompl.
+  - intros Hn c. rewrite Fe, Fa. apply Searly. exact HnA.
+  - intros a Ea _. rewrite oc_complained, Fa, Nat.eqb_refl, orb_true_r.
+    destruct (Hx a Ea) as [L|R]; [left; exact L|right; auto].
+  - intros Hv _ z Ez. rewrite Fa in Ez. apply Hx0; auto.
+  - intros Hv z Es Hr. exfalso. eapply Hnr; eauto.
+Qed.
+
+Lemma own_complaint_refines :
+  match build_complaint cf d q1 with
+  | Some (q', _) => Refines B q'
+  | None => False
+  end.
+Proof.
+  pose proof S as [Sst Sct Svr Svok Svnone Sxr Scompl Searly Sx Sx0 Sx1].
+  pose proof oc_Phi as PB.
+  assert (Ecp : q_compl q1 p = absEntry false (ansF A p)).
+  { rewrite Ec, (Scompl p). unfold DkgQualFacts.complained. unfold p. rewrite Nat.eqb_refl. fold p. rewrite OA. reflexivity. }
+  unfold build_complaint. fold p. rewrite Ecp.
+  destruct (ansF A p) as [z'|] eqn:Ez'; cbn [absEntry c_recv c_ans c_val].
+  - (* an unsolicited answer is already stored *)
+    destruct (v_vArecv (q_v q1)) eqn:Er1.
+    + pose proof Er as Er'. symmetry in Er'.
+      destruct (vecF_valid A q S P Er') as (l & Ev & Evo & Eyq).
+      set (a := fixpoly (c_t cf) l) in *.
+      assert (Ey1 : v_y (q_v q1) = Some (pubkeys cf a)) by (rewrite Ey; exact Eyq).
+      rewrite (verify_share_pub (q_v q1) a Ey1). rewrite andb_false_r.
+      cbn [q_v qset_compl]. rewrite (check_complaint_pub (q_v q1) a p z' Ey1 Hp).
+      rewrite Evo in PB.
+      destruct (z' =? peval a (Z.of_nat p + 1)) eqn:Ez2; cbn [negb] in *.
+      * split; intro Hq'; [|cbn in Hq'; discriminate Hq'].
+        split; [|exact PB]. apply oc_SA; cbn; auto.
+        all: try (intro c; rewrite Ec; reflexivity).
+        all: try (intros a' Ea'; rewrite Evo in Ea'; inversion Ea'; subst a'; left; apply Z.eqb_eq; exact Ez2).
+        all: try (intros _ z Ez; inversion Ez; reflexivity).
+      * split; intro Hq'; [cbn in Hq'; discriminate Hq'|]. exact PB.
+    + cbn [andb]. cbn [q_disq qset_compl]. rewrite Ed.
+      pose proof Er as Er'. symmetry in Er'.
+      destruct (vecF_none A q S Er') as [Ev Evo]. rewrite Evo in PB.
+      split; intro Hq'; [|cbn in Hq'; rewrite Ed in Hq'; discriminate Hq'].
+      split; [|exact PB]. apply oc_SA; cbn; auto.
+      all: try (intro c; rewrite Ec; reflexivity).
+      all: try (intros a' Ea'; rewrite Evo in Ea'; discriminate Ea').
+      all: try (intros _ z Ez; inversion Ez; reflexivity).
+  - assert (PB' : Phi B = false) by (rewrite PB; destruct (vecOk A); reflexivity).
+    assert (Hnp : (v_vArecv (q_v q1) && v_xrecv (q_v q1) &&
+                   match verify_share cf (q_v q1) with Some _ => false | None => true end) = false).
+    { destruct (v_vArecv (q_v q1)) eqn:Er1; [|reflexivity].
+      pose proof Er as Er'. symmetry in Er'.
+      destruct (vecF_valid A q S P Er') as (l & Ev & Evo & Eyq).
+      assert (Ey1 : v_y (q_v q1) = Some (pubkeys cf (fixpoly (c_t cf) l))) by (rewrite Ey; exact Eyq).
+      rewrite (verify_share_pub (q_v q1) _ Ey1). apply andb_false_r. }
+    rewrite Hnp.
+    split; intro Hq'; [|cbn in Hq'; rewrite Ed in Hq'; discriminate Hq'].
+    split; [|exact PB']. apply oc_SA; cbn; auto.
+    all: try (intro c; rewrite Ec; reflexivity).
+    all: try (intros _ z Ez; discriminate Ez).
+Qed.
+
+End OwnComplaint.
+
+(* the own complaint is built for the first time by a state q1 that differs from the
+   abstracted state q only in the private share fields *)
+Lemma build_first_complaint A q q1 m :
+  shF A = None -> nph A = 0%nat -> StateAbs A q -> Phi A = false -> q_disq q = false ->
+  let B := A ++ [(nph A, IP d m)] in
+  ownc B = true ->
+  q_st q1 = q_st q -> q_ct q1 = q_ct q -> q_disq q1 = false -> q_compl q1 = q_compl q ->
+  v_vArecv (q_v q1) = v_vArecv (q_v q) -> v_vA (q_v q1) = v_vA (q_v q) -> v_y (q_v q1) = v_y (q_v q) ->
+  v_xrecv (q_v q1) = true ->
+  (vecF A = None -> forall z, m = MShare (SVal z) -> readable z = true -> False) ->
+  match build_complaint cf d q1 with
+  | Some (q', _) => Refines B q'
+  | None => False
+  end.
+Proof.
+  intros Hnone Hk S P Hq B OB E1 E2 Ed Ec Er EvA Ey Exr Hnr.
+  pose proof S as [Sst Sct Svr Svok Svnone Sxr Scompl Searly Sx Sx0 Sx1].
+  pose proof (sh_Phi A m Hnone Hk P) as PB. fold B in PB. rewrite OB in PB. cbn [andb] in PB.
+  pose proof (sh_ownc_A A Hnone Hk) as OA.
+  assert (Ecp : q_compl q1 p = absEntry false (ansF A p)).
+  { rewrite Ec, (Scompl p). unfold DkgQualFacts.complained. unfold p. rewrite Nat.eqb_refl. fold p. rewrite OA. reflexivity. }
+  unfold build_complaint. fold p. rewrite Ecp.
+  assert (SAq : forall q', q_st q' = q_st q1 -> q_ct q' = q_ct q1 ->
+            v_vArecv (q_v q') = v_vArecv (q_v q1) -> v_vA (q_v q') = v_vA (q_v q1) -> v_y (q_v q') = v_y (q_v q1) ->
+            v_xrecv (q_v q') = true ->
+            (forall c, q_compl q' c = upd (q_compl q) p (match ansF A p with Some z => mkC true true z | None => mkC true false 0 end) c) ->
+            (forall a, vecOk A = Some a -> v_x (q_v q') = peval a (Z.of_nat p + 1) \/ ansF A p = None) ->
+            (vecF A = None -> forall z, ansF A p = Some z -> v_x (q_v q') = z) ->
+            StateAbs B q').
+  { intros q' F1 F2 F3 F4 F5 F6 F7 Hx Hx0.
+    apply (SA_share A m q Hnone Hk S q'); try congruence.
+    - intro c. rewrite F7. fold B. rewrite OB. unfold upd. destruct (Nat.eqb c p); [destruct (ansF A p); reflexivity|reflexivity].
+    - intros a Ea. fold B. rewrite OB. destruct (Hx a Ea) as [L|R]; auto.
+    - intros Hv _ z Ez. apply Hx0; auto.
+    - intros Hv z Em Hr. exfalso. eapply Hnr; eauto. }
+  destruct (ansF A p) as [z'|] eqn:Ez'; cbn [absEntry c_recv c_ans c_val].
+  - (* an unsolicited answer is already stored *)
+    destruct (v_vArecv (q_v q1)) eqn:Er1.
+    + symmetry in Er. destruct (vecF_valid A q S P Er) as (l & Ev & Evo & Eyq).
+      set (a := fixpoly (c_t cf) l) in *.
+      assert (Ey1 : v_y (q_v q1) = Some (pubkeys cf a)) by (rewrite Ey; exact Eyq).
+      rewrite Exr, (verify_share_pub (q_v q1) a Ey1). cbn [andb].
+      cbn [q_v qset_compl]. rewrite (check_complaint_pub (q_v q1) a p z' Ey1 Hp).
+      rewrite Evo in PB.
+      destruct (z' =? peval a (Z.of_nat p + 1)) eqn:Ez2; cbn [negb] in *.
+      * split; intro Hq'; [|cbn in Hq'; discriminate Hq'].
+        split; [|exact PB]. apply SAq; cbn; auto.
+        all: try (intro c; rewrite Ec; reflexivity).
+        all: try (intros a' Ea'; rewrite Evo in Ea'; inversion Ea'; subst a'; left; apply Z.eqb_eq; exact Ez2).
+        all: try (intros _ z Ez; inversion Ez; reflexivity).
+      * split; intro Hq'; [cbn in Hq'; discriminate Hq'|]. exact PB.
+    + cbn [andb]. cbn [q_disq qset_compl]. rewrite Ed.
+      symmetry in Er. destruct (vecF_none A q S Er) as [Ev Evo]. rewrite Evo in PB.
+      split; intro Hq'; [|cbn in Hq'; rewrite Ed in Hq'; discriminate Hq'].
+      split; [|exact PB]. apply SAq; cbn; auto.
+      all: try (intro c; rewrite Ec; reflexivity).
+      all: try (intros a' Ea'; rewrite Evo in Ea'; discriminate Ea').
+      all: try (intros _ z Ez; inversion Ez; reflexivity).
+  - assert (PB' : Phi B = false) by (rewrite PB; destruct (vecOk A); reflexivity).
+    assert (Hnp : (v_vArecv (q_v q1) && v_xrecv (q_v q1) &&
+                   match verify_share cf (q_v q1) with Some _ => false | None => true end) = false).
+    { destruct (v_vArecv (q_v q1)) eqn:Er1; [|reflexivity].
+      symmetry in Er. destruct (vecF_valid A q S P Er) as (l & Ev & Evo & Eyq).
+      assert (Ey1 : v_y (q_v q1) = Some (pubkeys cf (fixpoly (c_t cf) l))) by (rewrite Ey; exact Eyq).
+      rewrite (verify_share_pub (q_v q1) _ Ey1). apply andb_false_r. }
+    rewrite Hnp.
+    split; intro Hq'; [|cbn in Hq'; rewrite Ed in Hq'; discriminate Hq'].
+    split; [|exact PB']. apply SAq; cbn; auto.
+    all: try (intro c; rewrite Ec; reflexivity).
+    all: try (intros _ z Ez; discriminate Ez).
+Qed.
+
+Lemma istep_lift q h :
+  fst (let '(s', _, ev) := qpack (qlift true q h) in (qs_q s', ev)) =
+  match h with Some (q', _) => q' | None => q end.
+Proof. destruct h as [[q' ev]|]; reflexivity. Qed.
+
+Lemma step_IP A q o m :
+  q_disq q = false -> StateAbs A q -> Phi A = false ->
+  Refines (A ++ [(nph A, IP o m)]) (fst (istep q (IP o m))).
+Proof.
+  intros Hq S P. unfold istep. cbn [call_of qual_step qs_run qs_q]. unfold q_private. cbn [negb].
+  rewrite in_range_of_nat, Nat2Z.id.
+  destruct (Nat.ltb_spec o n) as [Hon|Hon]; cbn [negb].
+  2:{ cbn. apply (refines_same A); auto. apply share_other_same.
+      destruct (Nat.eqb_spec o d) as [->|]; [unfold n in Hon; lia|reflexivity]. }
+  destruct (Nat.eqb_spec (c_my cf) o) as [Hop|Hop].
+  { cbn. apply (refines_same A); auto. apply share_other_same. rewrite <- Hop.
+    rewrite (proj2 (Nat.eqb_neq (c_my cf) d) Hpd). reflexivity. }
+  rewrite Hq. rewrite istep_lift. unfold q_receive_share.
+  destruct (Nat.eqb_spec o d) as [->|Ho]; cbn [negb].
+  2:{ cbn. apply (refines_same A); auto. apply share_other_same. rewrite (proj2 (Nat.eqb_neq o d) Ho). reflexivity. }
+  pose proof S as [Sst Sct Svr Svok Svnone Sxr Scompl Searly Sx Sx0 Sx1].
+  destruct (q_st q) eqn:Est.
+  { cbn. apply (refines_same A); auto. apply share_other_same.
+    symmetry in Sst. apply Nat.leb_le in Sst. destruct (nph A); [lia|]. apply andb_false_r. }
+  assert (Hk : nph A = 0%nat).
+  { symmetry in Sst. apply Nat.leb_gt in Sst. lia. }
+  destruct (v_xrecv (q_v q)) eqn:Ex.
+  { cbn. rewrite Sxr in Ex. destruct (shF A) as [m0|] eqn:Es; [|discriminate].
+    apply (refines_same A); auto. eapply share_dup_same; eauto. }
+  assert (Hnone : shF A = None).
+  { rewrite Sxr in Ex. destruct (shF A); [discriminate|reflexivity]. }
+  set (B := A ++ [(nph A, IP d m)]).
+  set (q1 := qset_v q (set_xrecv (q_v q) true)).
+  pose proof (sh_ownc A m Hnone Hk) as OB. fold B in OB.
+  pose proof (sh_Phi A m Hnone Hk P) as PB. fold B in PB.
+  (* malformed private message: complain and flag *)
+  assert (Hmal : forall q2, ownc B = true -> q_st q2 = q_st q -> q_ct q2 = q_ct q -> q_disq q2 = false ->
+            q_compl q2 = q_compl q -> v_vArecv (q_v q2) = v_vArecv (q_v q) -> v_vA (q_v q2) = v_vA (q_v q) ->
+            v_y (q_v q2) = v_y (q_v q) -> v_xrecv (q_v q2) = true ->
+            (vecF A = None -> forall z, m = MShare (SVal z) -> readable z = true -> False) ->
+            Refines B (match (match build_complaint cf d q2 with Some (q3, ev) => Some (q3, ev ++ [EvFlag d]) | None => None end)
+                       with Some (q', _) => q' | None => q end)).
+  { intros q2 OBt F1 F2 F3 F4 F5 F6 F7 F8 Hnr.
+    pose proof (build_first_complaint A q q2 m Hnone Hk S P Hq OBt F1 F2 F3 F4 F5 F6 F7 F8 Hnr) as HB.
+    destruct (build_complaint cf d q2) as [[q3 ev]|]; [exact HB|contradiction]. }
+  destruct m as [|sb|vb|cb|ab|tg];
+    try (apply (Hmal q1); cbn; auto; intros _ z Em; discriminate Em).
+  destruct sb as [|z]; [apply (Hmal q1); cbn; auto; intros _ z Em; discriminate Em|].
+  cbn [q_v q1 qset_v v_x set_xrecv].
+  destruct (readable z) eqn:Hrz.
+  2:{ pose proof (read_star_unreadable z (v_x (q_v q)) Hrz) as Er.
+      destruct (read_star z (v_x (q_v q))) as [ok x']. cbn in Er. subst ok. cbn [negb].
+      apply (Hmal (qset_v q1 (set_x (q_v q1) x'))); cbn; auto.
+      intros _ z0 Em. inversion Em; subst z0. congruence. }
+  rewrite (read_star_readable z _ Hrz). cbn [negb].
+  set (q2 := qset_v q1 (set_x (q_v q1) z)).
+  assert (SAq : ownc B = false -> (forall a, vecOk A = Some a -> z = peval a (Z.of_nat p + 1)) -> StateAbs B q2).
+  { intros OBf Hz. apply (SA_share A (MShare (SVal z)) q Hnone Hk S q2); cbn; auto.
+    all: try (intro c; fold B; rewrite OBf; destruct (Nat.eqb_spec c p) as [->|]; [|reflexivity];
+              rewrite (Scompl p); unfold DkgQualFacts.complained; unfold p; rewrite Nat.eqb_refl; fold p;
+              rewrite (sh_ownc_A A Hnone Hk); reflexivity).
+    all: try (intros a Ea; left; apply Hz; exact Ea).
+    all: try (fold B; rewrite OBf; intros _ Hf; discriminate Hf).
+    all: try (intros _ z0 Em _; inversion Em; reflexivity). }
+  cbn [q_v q2 qset_v q1 v_vArecv set_x set_xrecv].
+  destruct (v_vArecv (q_v q)) eqn:Er.
+  - destruct (vecF_valid A q S P Er) as (l & Ev & Evo & Ey).
+    set (a := fixpoly (c_t cf) l) in *.
+    rewrite (verify_share_pub (set_x (set_xrecv (q_v q) true) z) a Ey). cbn [v_x set_x].
+    change (qset_v q1 (set_x (set_xrecv (q_v q) true) z)) with q2.
+    rewrite Evo in OB, PB.
+    destruct (z =? peval a (Z.of_nat p + 1)) eqn:Ez; cbn [negb] in OB.
+    + cbn. rewrite OB in PB. cbn [andb] in PB.
+      split; intro Hq'; [|cbn in Hq'; rewrite Hq in Hq'; discriminate Hq'].
+      split; [|exact PB]. apply SAq; auto. intros a' Ea'. rewrite Evo in Ea'. inversion Ea'; subst a'. apply Z.eqb_eq. exact Ez.
+    + pose proof (build_first_complaint A q q2 (MShare (SVal z)) Hnone Hk S P Hq OB) as HB.
+      destruct (build_complaint cf d q2) as [[q3 ev]|]; cbn.
+      * apply HB; cbn; auto. intros Hv. rewrite Hv in Ev. discriminate Ev.
+      * exfalso. apply HB; cbn; auto. intros Hv. rewrite Hv in Ev. discriminate Ev.
+  - destruct (vecF_none A q S Er) as [Ev Evo]. rewrite Evo in OB, PB. cbn.
+    split; intro Hq'; [|cbn in Hq'; rewrite Hq in Hq'; discriminate Hq'].
+    split; [|exact PB]. apply SAq; auto. intros a' Ea'. rewrite Evo in Ea'. discriminate Ea'.
 Qed.
 
 End Refine.
